@@ -261,7 +261,7 @@ def run(tier, seed, jobs):
     if tier == 'quick':
         plans = [('full', 3), ('small', 4)]
     else:
-        plans = [('full', 4), ('decl', 5), ('small', 7)]
+        plans = [('full', 3), ('decl', 4), ('small', 6)]
     runs = []
     states = trans = nq = 0
     for alpha_name, depth in plans:
